@@ -9,7 +9,7 @@ from vt.core import L
 from vt.ref import tlv
 
 USES = ["view_settings", "view_settings_by_index", "view_raw", "view_raw_by_index", "decoder_rsa", "decoder_aes", "decoder_rand", "client",
-        "profile", "transform_get", "recover_get", "transform_post", "mutate", "session_rsa", "client_options", "derived", "settings_map"]
+        "profile", "transform_get", "recover_get", "transform_post", "mutate", "session_rsa", "client_options", "derived", "settings_map", "lookup"]
 _G = {}
 
 
@@ -127,11 +127,25 @@ def do_use(u, cfg, env):
         except Exception:  # noqa: BLE001
             pass
         return out
+    if u == "lookup":
+        # look-ups by subscript, get and `in`: names that are there, names that are not, and the superseded names of indices that have two
+        res = []
+        for name in ("settings", "raw_settings", "settings_by_index", "raw_settings_by_index"):
+            m = getattr(cfg, name)
+            for k in ("SETTING_PORT", "SETTING_NOT_THERE", "SETTING_KILLDATE_YEAR", "SETTING_KILLDATE_MONTH", "SETTING_PROCINJ_ALLOWED", "SETTING_BOF_ALLOCATOR", 2, 16, 17, 48, 999):
+                try:
+                    res.append((name, norm(k), "sub", norm(m[k])))
+                except KeyError:
+                    res.append((name, norm(k), "sub", "KeyError"))
+                res.append((name, norm(k), "get", norm(m.get(k, "dflt")), k in m, len(m)))
+        return tuple(res)
     if u == "mutate":
         res = []
         for name in ("settings", "settings_by_index", "raw_settings", "raw_settings_by_index"):
             m = getattr(cfg, name)
-            for op in ("set", "del", "update", "clear", "pop"):
+            for op in ("set", "del", "update", "clear", "pop", "popitem", "setdefault", "ior", "reinit"):
+                before = tuple((norm(k), norm(v)) for k, v in m.items())
+                raised = False
                 try:
                     if op == "set":
                         m["SETTING_PORT"] = 1
@@ -141,11 +155,22 @@ def do_use(u, cfg, env):
                         m.update({"x": 1})
                     elif op == "clear":
                         m.clear()
+                    elif op == "popitem":
+                        m.popitem()
+                    elif op == "setdefault":
+                        m.setdefault("SETTING_NOT_THERE", 5)
+                    elif op == "ior":
+                        m2 = m
+                        m2 |= {next(iter(m)): 0, "y": 2}  # for a read-only view this builds a new mapping and leaves the view alone
+                    elif op == "reinit":
+                        m.__init__({"z": 3})
                     else:
                         m.pop(next(iter(m)))
-                    res.append((name, op, "mutated"))
                 except (TypeError, AttributeError):
-                    res.append((name, op, "rejected"))
+                    raised = True
+                after = tuple((norm(k), norm(v)) for k, v in getattr(cfg, name).items())
+                # rejected means: the view of the configuration is what it was (an exception, or an operation that built something new)
+                res.append((name, op, "rejected" if after == before and (raised or op in ("ior", "reinit")) else "mutated"))
         return tuple(res)
     raise core.MachineryError(f"unknown use {u}")
 
